@@ -34,13 +34,13 @@ ASSUMPTIONS = [
     "the call that follows an undrained non-200 reply on a kept-alive connection (204, 304, chunked body) may fail whatever the peer answers: it is the 'one further call' the statement allows",
     "R11: a call that does not return within 30 s makes the case inconclusive (skipped and counted), not a violation",
 ]
-EXHAUSTIVE = ["all fault scripts of length <= 2 (quick) / <= 3 (thorough) over the 19-action alphabet, on TCP and Unix sockets"]
+EXHAUSTIVE = ["all fault scripts of length <= 2 (quick) / <= 3 (thorough) over the 21-action alphabet, on TCP and Unix sockets"]
 
-ALPHA = ["ok_ka", "ok_close", "refuse", "close_noreply", "reset", "st_cl", "st_nolen_close", "st_bodiless", "trunc", "empty200", "nonjson",
+ALPHA = ["ok_ka", "ok_close", "ok_chunked", "ok_nolen_close", "refuse", "close_noreply", "reset", "st_cl", "st_nolen_close", "st_bodiless", "trunc", "empty200", "nonjson",
          "st_202_body", "st_204_ka", "st_304_ka", "st_chunked", "st_103_then_200", "st_520_noreason", "st_json_result", "st_json_error"]
 STATUS = {"st_json_result": 503, "st_json_error": 500, "st_cl": 503, "st_nolen_close": 500, "st_bodiless": 502, "st_202_body": 202, "st_204_ka": 204, "st_304_ka": 304, "st_chunked": 503,
           "st_103_then_200": 103, "st_520_noreason": 520}
-HEALTHY = ("ok_ka", "ok_close")
+HEALTHY = ("ok_ka", "ok_close", "ok_chunked", "ok_nolen_close")
 UNDRAINED = ("st_204_ka", "st_304_ka", "st_chunked", "st_103_then_200")
 
 
@@ -136,6 +136,15 @@ class Peer(object):
                     send(b"200 OK", good)
                 elif act == "ok_close":
                     send(b"200 OK", good, b"Connection: close\r\n")
+                    return
+                elif act == "ok_chunked":
+                    # a healthy reply framed by the chunked transfer coding (no Content-Length)
+                    half = len(good) // 2
+                    c.sendall(b"HTTP/1.1 200 OK\r\nTransfer-Encoding: chunked\r\n\r\n" + b"%x\r\n" % half + good[:half] + b"\r\n"
+                              + b"%x\r\n" % (len(good) - half) + good[half:] + b"\r\n0\r\n\r\n")
+                elif act == "ok_nolen_close":
+                    # a healthy reply delimited by the end of the connection
+                    send(b"200 OK", good, b"Connection: close\r\n", length=False)
                     return
                 elif act == "close_noreply":
                     return
@@ -346,7 +355,7 @@ def check_script(family, script):
     if records and records[-1]["outcome"] != "returned":
         fail("C19/no-recovery", "the last healthy call failed (script %r)" % (list(script),), {"records": summarize(records)})
     kinds = set(a for a in script if a not in HEALTHY)
-    kept_alive_fault = any(script[i] not in HEALTHY and script[i] != "refuse" and script[i - 1] in ("ok_ka", "st_cl", "empty200", "nonjson", "st_202_body", "st_204_ka", "st_304_ka", "st_chunked", "st_103_then_200", "st_520_noreason") for i in range(1, len(script)))
+    kept_alive_fault = any(script[i] not in HEALTHY and script[i] != "refuse" and script[i - 1] in ("ok_ka", "ok_chunked", "st_cl", "st_json_result", "st_json_error", "empty200", "nonjson", "st_202_body", "st_204_ka", "st_304_ka", "st_chunked", "st_103_then_200", "st_520_noreason") for i in range(1, len(script)))
     nt = len(kinds) >= 2 or kept_alive_fault
     classes = ["family:" + family, "len:%d" % len(script)] + sorted("fault:" + k for k in kinds)
     if kept_alive_fault:
